@@ -88,8 +88,7 @@ def _worker(args):
     st = E.Stats()
     diffs = []
     n_compared = 0
-    wdir = os.path.join(B.WORK, ID)
-    os.makedirs(wdir, exist_ok=True)
+    wdir = B.workdir(ID)
     batch = 0
     try:
         while True:
